@@ -11,6 +11,12 @@ def P(pkg, test, technique, level_text, level_note, level="exploration", q=None,
             "technique": technique, "level_text": level_text, "level_note": level_note}
 
 CHECKS = {
+    "C08": P("pure", "TestC08",
+             "rapid pair generation with structure-aware mutation + exhaustive small scope; oracle: tuple equality <=> datum identity",
+             "Pairs of tuples over an adversarial alphabet (separator, escape, empty, non-UTF-8) are pushed through create/find/expire/remove/enumerate on a real metric and compared with string-wise tuple equality; every tuple of arity <=2 over {a,-,\\}^<=3 is enumerated exhaustively.",
+             "Trusted: Go string equality as the reference. Sampling beyond the exhaustive scope.",
+             q={"checks": 20000, "shards": 1, "timeout": 300},
+             t={"checks": 200000, "shards": 16, "timeout": 1500}),
     "C15": P("pure", "TestC15",
              "exhaustive small-scope enumeration + rapid random streams/chunkings vs reference splitter",
              "Every byte stream up to length 5 (quick) / 7 (thorough) over {LF, CR, 'a', 0xe4} under every composition into reads and buffer sizes 1,2,3,64 is compared with a reference splitter; plus random streams to 70 KB with random chunking incl. zero-length reads. Exploration with an exhaustive small scope.",
